@@ -228,6 +228,12 @@ def run(pid, tier, seed):
                                     "(TSS.Alg.DKG in the exponent) differ in verdict, values or broadcast order; the theorems of "
                                     "Props/C05.v and Props/C01.v are about the model", count=len(mism), party=p["id"], scenario=sc),
                           no_input=True)
+    # ---------------------------------------------------------------- withheld messages x the moment the context ends (C05)
+    # "withheld" is one of the deviations of C05: the honest party must return an error, whenever its context ends -- before
+    # KeyGen is called, while it is sending, while it is parked in a wait, or by a deadline with silent peers.  The matrix is the
+    # one C11 runs at the backend; a KeyGen that neither completes nor returns (hang), panics, or reports success is a violation.
+    if pid == "C05":
+        run_backend_cancel(chk, tier, seed)
     # ---------------------------------------------------------------- full stack
     ssc = stack_stage(chk, hit, tier, seed, only)
     # ---------------------------------------------------------------- evidence
